@@ -1,6 +1,6 @@
 """C07: command-level gate (get_command_instance), the registry's only writer (RequireCommand.complete_cb),
 its reset (Parser.__reset_parser) and the message text."""
-from pyvc.api import native, sym_str, sym_set, sym_bool, opaque, prove, assume, note, implies, both, either, neg
+from pyvc.api import native, sym_str, sym_set, sym_bool, sym_int, ghost, opaque, prove, assume, note, implies, both, either, neg
 from sievelib import commands
 from sievelib import parser as sparser
 
@@ -176,3 +176,78 @@ def h_reset_parser_full():
     prove(p._Parser__expected_brackets == [] and p._Parser__expected_brackets is not stale_list, "H1.reset.brackets-fresh")
     le = commands.RequireCommand.loaded_extensions
     prove(type(le) is list and len(le) == 0 and le is not stale_list, "H1.reset.registry-fresh-empty")
+
+
+# ---------------------------------------------------------------- G3 for capability lists of ANY length (loop invariant)
+
+@native
+def _fresh_caps_list():
+    import z3
+    from pyvc import core, sym
+    return sym.SSeq(z3.Const(core.cur().fresh_name("capabilities"), sym.SEQ_STR), False)
+
+
+@native
+def _elem(seq, k):
+    """k-th element as a term (no bounds check: every use is guarded by 0 <= k < length)"""
+    from pyvc.sym import to_z3int
+    return seq.elem(to_z3int(k))
+
+
+@native
+def _exists_added(seq, upto, probe):
+    """exists j in [0, upto): probe == seq[j].strip('"')   (as a quantified formula over the strip function symbol)"""
+    import z3
+    from pyvc import sym, strmodel
+    from pyvc.sym import mkbool, to_z3int, to_z3str
+    key = "".join("%02x" % ord(c) for c in '"')
+    F = strmodel._STRIP_FUNCS.get(key)
+    if F is None:
+        F = strmodel._STRIP_FUNCS[key] = z3.Function("py_strip_" + key, z3.StringSort(), z3.StringSort())
+    j = z3.Int("j!added")
+    return mkbool(z3.Exists([j], z3.And(j >= 0, j < to_z3int(upto), to_z3str(probe) == F(sym.F_seq_elem(seq.t, j)))))
+
+
+def inv_complete_cb(L):
+    G = ghost()
+    loaded = commands.RequireCommand.loaded_extensions
+    i = getattr(L, "$i")
+    seq = getattr(L, "$seq")
+    probe = G["probe"]
+    k = G["k"]
+    monotone = implies(G["probe_before"], probe in loaded)
+    adds_each = implies(both(k >= 0, k < i), _elem(seq, k).strip('"') in loaded)
+    nothing_else = implies(both(probe in loaded, neg(G["probe_before"])), _exists_added(seq, i, probe))
+    return both(monotone, adds_each, nothing_else)
+
+
+def heap_complete_cb(L):
+    commands.RequireCommand.loaded_extensions = sym_set("loaded_at_loop_head")
+    return None
+
+
+def setup_complete_cb(ip, unit):
+    from pyvc.interp import LoopSpec
+    ip.loop_specs[("sievelib.commands", "RequireCommand.complete_cb", 0)] = LoopSpec(
+        inv_complete_cb, havoc={"ext": "str"}, heap=heap_complete_cb, header="exts")
+
+
+def h_complete_cb_anylist():
+    """require [c0, ..., c(n-1)] for a list of ANY length n: the registry afterwards is the registry before plus exactly the
+    capabilities named (each stripped of its quotes) -- loop invariant over the index, Skolem probe and position"""
+    cmd = commands.RequireCommand(None)
+    caps = _fresh_caps_list()
+    cmd.arguments["capabilities"] = caps
+    loaded = sym_set("loaded")
+    commands.RequireCommand.loaded_extensions = loaded
+    probe = sym_str("probe")
+    k = sym_int("position")
+    G = ghost()
+    G["probe"] = probe
+    G["k"] = k
+    G["probe_before"] = probe in loaded
+    cmd.complete_cb()
+    after = commands.RequireCommand.loaded_extensions
+    prove(implies(G["probe_before"], probe in after), "G3.cb.anylist.monotone")
+    prove(implies(both(k >= 0, k < len(caps)), _elem(caps, k).strip('"') in after), "G3.cb.anylist.adds-each")
+    prove(implies(both(probe in after, neg(G["probe_before"])), _exists_added(caps, len(caps), probe)), "G3.cb.anylist.adds-nothing-else")
